@@ -195,6 +195,8 @@ def project(prop, op, line):
         return repr((fwd, sends, outs))
     if prop == "C13":
         return repr((ret, fwd, outs, queues))
+    if prop == "C09":   # which server a request went to; every server's state and unanswered count
+        return repr((ret, [f[1] for f in fwd], [(s["name"], s.get("st"), s.get("lost")) for s in S]))
     if prop == "C08":
         return repr((ret, [f[1] for f in fwd], queues, outs))
     return line
@@ -283,7 +285,11 @@ def generic_history(exe, rng, idx, emph, cfg=None):
                     extra = eap_attrs(rng, valid=rng.random() < 0.5)
                     code = 1
                 if rng.random() < E("p_proxystate", 0.15):
-                    extra = (extra or []) + [(33, R.rand_bytes(rng, rng.choice([0, 1, 8, 253]))) for _ in range(rng.randrange(1, 4))]
+                    ps = [(33, R.rand_bytes(rng, rng.choice([0, 1, 8, 253]))) for _ in range(rng.randrange(1, 4))]
+                    # Proxy-States need not sit next to each other
+                    ps += [R.rand_attr(rng, types=[4, 5, 6, 18, 31, 32, 44]) for _ in range(rng.choice([0, 1, 1, 2]))]
+                    rng.shuffle(ps)
+                    extra = (extra or []) + ps
                 if rng.random() < E("p_big", 0.05):
                     n = rng.choice([3990, 4040, 4070, 4076]) - 60
                     extra = (extra or [])
